@@ -20,6 +20,7 @@ LEVEL_TEXT = (
     'no duplicate key in any object, carries the documented envelope and the marker only inside string values (never in a key); every text '
     'line is free of control characters, starts with "neighbor <configured address>" and the marker shows on no more lines than events carry it.'
     ' Structured UPDATEs from the C02 generator, UPDATEs with several tolerated malformed attributes, tunnel encapsulation, BGP-LS floats; the slow helper may die mid-record and be respawned; a Python object repr in a record is a violation.'
+    ' The slow helper also writes commands whose replies may not overtake the queued tail of an event.'
 )
 LEVEL_NOTE = 'trusts: the envelope description in this file (taken from the documentation), strict json.loads as the definition of well-formed JSON'
 DESIGN_REF = 'DESIGN.md section 5, C13'
